@@ -1,4 +1,4 @@
-CONSTANTS W = 2 Target = 2 Epochs = 2 KeepSender = FALSE JoinUnwrap = FALSE Faults <- AllFaults QMax = 2 Outcomes <- OutErr BchThreshold = 0 RQMax = 2 MaxFrames = 100
+CONSTANTS W = 2 Target = 2 Epochs = 2 KeepSender = FALSE JoinUnwrap = FALSE Faults <- AllFaults QMax = 2 Outcomes <- OutErr BchThreshold = 0 RQMax = 2 BoundedSend = FALSE MaxFrames = 100
 SPECIFICATION Spec
 INVARIANTS OneLinePerEbN0 LinesPrefix StatsExact StopExact NoLeak FinishedLast NoCollectorPanic NoStuck
 PROPERTY Termination ProgressTerminates
